@@ -91,6 +91,7 @@ type ckSim struct {
 	lastMsg pb.MessageBatch
 	counts  map[string]int
 	removed bool
+	big     bool // production chunk size (2 MB) and multi-block snapshot files
 }
 
 const ckDid = 77
@@ -155,6 +156,10 @@ func (s *ckSim) mkStream(id int, from uint64, index uint64) *ckStream {
 		panic(err)
 	}
 	payload := make([]byte, s.rng.Intn(2600))
+	if s.big {
+		// several checksummed blocks (2 MB each): the stream validator works while chunks arrive
+		payload = make([]byte, 4<<20+s.rng.Intn(5<<20))
+	}
 	s.rng.Read(payload)
 	sessions := rsm.GetEmptyLRUSession()
 	if _, err := w.Write(sessions); err != nil {
@@ -454,6 +459,11 @@ func TestVerifCksim(t *testing.T) {
 	for i := 0; i < traces; i++ {
 		tid := first + i
 		s := &ckSim{rng: rand.New(rand.NewSource(seed*49979687 + int64(tid))), out: w, tid: tid, counts: map[string]int{}}
+		snapshotChunkSize = 1024
+		if tid%16 == 7 {
+			s.big = true
+			snapshotChunkSize = savedChunk
+		}
 		func() {
 			defer func() {
 				if r := recover(); r != nil {
